@@ -7,5 +7,6 @@ INVARIANT Cl_SumOne
 INVARIANT Cl_RatioLaw
 INVARIANT Cl_Monotone
 INVARIANT Cl_RejectsOutside
+INVARIANT Cl_ForeignResult
 INVARIANT Step_Conv
 CHECK_DEADLOCK FALSE
